@@ -219,6 +219,13 @@ func (c *checkSchema) ensureShortcutKeysAreValid(node *schema.ObjectNode) error 
 }
 
 func actualRootType(s, root *schema.Schema) json.Type {
+	return actualRootTypeOf(s, root, map[*schema.Schema]struct{}{})
+}
+
+// actualRootTypeOf does the job of actualRootType. The inProgress set holds the
+// types which alternatives are being examined right now: a reference back to one
+// of them (for example: @aaa = @aaa | @bbb) adds nothing to the set of possible types.
+func actualRootTypeOf(s, root *schema.Schema, inProgress map[*schema.Schema]struct{}) json.Type {
 	t := s.RootNode().Type()
 	if t != json.TypeMixed {
 		return t
@@ -226,6 +233,9 @@ func actualRootType(s, root *schema.Schema) json.Type {
 
 	// mixed type for example: @aaa | @bbb
 	if n, ok := s.RootNode().(*schema.MixedValueNode); ok {
+		inProgress[s] = struct{}{}
+		defer delete(inProgress, s)
+
 		types := make(map[json.Type]struct{}, 2)
 		var tt json.Type
 		for _, tn := range n.GetTypes() {
@@ -233,7 +243,10 @@ func actualRootType(s, root *schema.Schema) json.Type {
 			if err != nil {
 				return json.TypeMixed
 			}
-			tt = actualRootType(ss, root)
+			if _, ok := inProgress[ss]; ok {
+				continue
+			}
+			tt = actualRootTypeOf(ss, root, inProgress)
 			types[tt] = struct{}{}
 		}
 		if len(types) == 1 { // all USER TYPES (example: @aaa | @bbb) have the same type (example: string)
